@@ -526,6 +526,63 @@ static void stress_free(Json& js, vh::Rng& rng, int T, int ops) {
       .num("cache_shared", g_cache_shared.load()).end();
 }
 
+// the very first use of the number-theory helpers (and of plan construction, which factors its length) happens in all
+// threads at once, on arguments that force trial division far beyond any precomputed table: whatever these functions keep
+// between calls must not be shared unsynchronised.  Checked against the driver's own trial division.
+static bool naive_isprime(uint64_t v) {
+    if (v < 2) {
+        return false;
+    }
+    for (uint64_t d = 2; d * d <= v; ++d) {
+        if (v % d == 0) {
+            return false;
+        }
+    }
+    return true;
+}
+static void stress_cold(Json& js, int T) {
+    const long bad = run_threads(T, [&](int t) {
+        long b = 0;
+        for (int i = 0; i < 24; ++i) {
+            const uint32_t a = 4000000007u - 2000u * (uint32_t)t - 2u * (uint32_t)i;          // near 2^32: sqrt = 63245
+            const uint32_t s = 257u * 257u + 2u * (uint32_t)(t * 24 + i);                     // just above 251^2
+            const uint32_t c = 65537u * (uint32_t)(3 + 2 * ((t + i) % 7));
+            b += isprime(a) != naive_isprime(a);
+            b += isprime(s) != naive_isprime(s);
+            uint32_t np = nextprime(a);
+            b += !(np >= a && naive_isprime(np));
+            for (uint32_t v = a; v < np; ++v) {
+                b += naive_isprime(v);
+            }
+            uint64_t prod = 1;
+            const arr_int fc = factor(c);
+            for (int k = 0; k < fc.size(); ++k) {
+                prod *= (uint64_t)fc[k];
+                b += !naive_isprime((uint64_t)fc[k]);
+            }
+            b += prod != c;
+            if (i % 8 == 0) {
+                const arr_int pl = primes(70000 + 100 * t);
+                long cnt = 0;
+                for (uint32_t v = 2; v <= 70000u + 100u * t; ++v) {
+                    cnt += naive_isprime(v);
+                }
+                b += cnt != pl.size();
+                const int n = 2 * 32771 * (1 + t % 2);   // a length with the prime factor 32771 > 251^2 / 2
+                const arr_cmplx x = cin(n, t);
+                const arr_cmplx y = fft(x);
+                cmplx_t dc = 0;
+                for (int k = 0; k < n; ++k) {
+                    dc += x[k];
+                }
+                b += !(abs(y[0] - dc) <= 1e-9 * n);
+            }
+        }
+        return b;
+    });
+    js.begin("Stress").str("kind", "cold number theory").num("n", 0).num("threads", T).num("calls", 24).num("mismatches", bad).end();
+}
+
 // every thread constructs (and uses) its own objects of thread-specific sizes at the same time: constructors must
 // not share hidden state (static tables, process-wide caches)
 static void stress_construct(Json& js, vh::Rng& rng, int T, int reps) {
@@ -577,6 +634,186 @@ static void stress_construct(Json& js, vh::Rng& rng, int T, int reps) {
     js.begin("Stress").str("kind", "concurrent construction").num("n", 0).num("threads", T).num("calls", reps).num("mismatches", bad).end();
 }
 
+// ---------------------------------------------------------------- behaviours exported from TLC (Threads.tla)
+// Each line of the schedule file is one maximal path of the model's state graph, as tokens B<t> M<t> E<t>
+// (Begin / Mid / End of thread t's next solve on the shared plan).  The path is imposed on real threads:
+//   B<t>: thread t is committed to its next solve (it waits at its gate; taking the input has no visible effect),
+//   M<t>: the gate opens and t runs until its k-th scratch yield (scratch written, not yet read back),
+//   E<t>: t runs to the end of this solve (and parks at the gate of its next one).
+// Executed steps and per-solve results are logged for Trace_Threads.
+struct Gates
+{
+    std::mutex m;
+    std::condition_variable cv;
+    int pass[Sched::NT] = {0, 0, 0, 0};
+    bool waiting[Sched::NT] = {false, false, false, false};
+};
+static void replay_schedules(Json& js, vh::Rng& rng, const char* file) {
+    static const int LENS[] = {6, 12, 15, 18, 24, 30, 36, 45, 60, 90, 120, 210};
+    FILE* in = std::fopen(file, "r");
+    if (!in) {
+        std::fprintf(stderr, "cannot read %s\n", file);
+        std::exit(3);
+    }
+    char line[4096];
+    long lineno = 0;
+    while (std::fgets(line, sizeof(line), in)) {
+        std::vector<std::pair<char, int>> steps;
+        int nthr = 0;
+        for (char* tok = std::strtok(line, " \n"); tok; tok = std::strtok(nullptr, " \n")) {
+            steps.emplace_back(tok[0], std::atoi(tok + 1));
+            nthr = std::max(nthr, std::atoi(tok + 1));
+        }
+        if (steps.empty() || nthr > Sched::NT) {
+            continue;
+        }
+        std::vector<int> calls(nthr, 0);
+        for (auto& st : steps) {
+            calls[st.second - 1] += st.first == 'B';
+        }
+        const int n = LENS[(lineno++ + rng.range(0, 11)) % 12];
+        FftPlan plan(n);   // shared by all threads
+        // inputs and sequential references, per thread and call
+        std::vector<std::vector<arr_cmplx>> x(nthr), ref(nthr), y(nthr);
+        for (int t = 0; t < nthr; ++t) {
+            for (int c = 0; c < calls[t]; ++c) {
+                x[t].push_back(cin(n, 10 * t + c));
+                ref[t].push_back(plan(x[t].back()));
+                y[t].emplace_back();
+            }
+        }
+        long K = 0;   // scratch yields of one solve
+        {
+            Sched cnt;
+            cnt.mask = 1;
+            g_sched = &cnt;
+            std::thread th = spawn(cnt, 0, [&] { (void)plan(x[0][0]); });
+            wait_gate(cnt, 0);
+            advance(cnt, 0, 1);
+            while (true) {
+                {
+                    std::unique_lock<std::mutex> lk(cnt.m);
+                    if (cnt.done[0]) {
+                        break;
+                    }
+                }
+                advance(cnt, 0, 1);
+                ++K;
+            }
+            th.join();
+        }
+        Sched s;
+        s.mask = 1;
+        g_sched = &s;
+        Gates g;
+        std::vector<std::thread> th;
+        for (int t = 0; t < nthr; ++t) {
+            th.push_back(spawn(s, t, [&, t] {
+                for (int c = 0; c < calls[t]; ++c) {
+                    {   // gate before every solve: the scheduler sees the thread parked here
+                        std::unique_lock<std::mutex> lk(g.m);
+                        g.waiting[t] = true;
+                        g.cv.notify_all();
+                        g.cv.wait(lk, [&] { return g.pass[t] > 0; });
+                        --g.pass[t];
+                    }
+                    y[t][c] = plan(x[t][c]);
+                    std::unique_lock<std::mutex> lk(s.m);
+                    s.budget[t] = 0;   // whatever was left of "run to the end" does not leak into the next solve
+                }
+            }));
+        }
+        // wait until t is parked at a solve gate or finished (or, if at_yield, blocked at a scratch yield with no budget)
+        auto park = [&](int t, bool at_yield) {
+            for (int spin = 0; spin < 200000; ++spin) {
+                {
+                    std::unique_lock<std::mutex> lk(g.m);
+                    if (g.waiting[t]) {
+                        return true;
+                    }
+                }
+                {
+                    std::unique_lock<std::mutex> lk(s.m);
+                    if (s.done[t] || (at_yield && s.blocked[t] && s.budget[t] == 0)) {
+                        return true;
+                    }
+                }
+                std::this_thread::sleep_for(std::chrono::microseconds(50));
+            }
+            return false;
+        };
+        for (int t = 0; t < nthr; ++t) {
+            wait_gate(s, t);
+            {   // release the spawn gate without granting yields: the thread runs up to its first solve gate
+                std::unique_lock<std::mutex> lk(s.m);
+                s.budget[t] = 1;
+                s.cv.notify_all();
+            }
+            park(t, false);
+        }
+        js.begin("Reset").str("kind", "tlcpath").num("n", n).num("yields", K).num("k1", nthr).num("k2", (long)steps.size()).end();
+        bool diverged = false;
+        for (auto& st : steps) {
+            const int t = st.second - 1;
+            if (diverged) {
+                break;
+            }
+            if (st.first == 'B') {
+                js.begin("Step").num("t", t + 1).str("a", "Begin").str("plan", "a").end();
+            } else if (st.first == 'M') {
+                {
+                    std::unique_lock<std::mutex> lk(g.m);
+                    ++g.pass[t];
+                    g.waiting[t] = false;   // cleared here, not by the woken thread: park() must not see the stale flag
+                    g.cv.notify_all();
+                }
+                {
+                    std::unique_lock<std::mutex> lk(s.m);
+                    s.budget[t] += K > 0 ? rng.range(0, K - 1) : 0;   // pass that many scratch yields, block at the next one
+                    s.cv.notify_all();
+                }
+                diverged = !park(t, true) || diverged;   // now blocked right after a scratch write
+                js.begin("Step").num("t", t + 1).str("a", "Mid").str("plan", "a").end();
+            } else {
+                {
+                    std::unique_lock<std::mutex> lk(s.m);
+                    s.budget[t] += 1L << 40;
+                    s.cv.notify_all();
+                }
+                diverged = !park(t, false) || diverged;
+                js.begin("Step").num("t", t + 1).str("a", "End").str("plan", "a").end();
+            }
+        }
+        {
+            std::unique_lock<std::mutex> lk(s.m);
+            if (diverged) {
+                s.diverged = true;
+            }
+            for (int t = 0; t < Sched::NT; ++t) {
+                s.budget[t] = 1L << 40;
+            }
+            s.cv.notify_all();
+        }
+        {
+            std::unique_lock<std::mutex> lk(g.m);
+            for (int t = 0; t < Sched::NT; ++t) {
+                g.pass[t] += 1000;
+            }
+            g.cv.notify_all();
+        }
+        for (auto& t : th) {
+            t.join();
+        }
+        g_sched = nullptr;
+        for (int t = 0; t < nthr; ++t) {
+            for (int c = 0; c < calls[t]; ++c) {
+                js.begin("Result").num("t", t + 1).num("c", c).boolean("ok", close_c(y[t][c], ref[t][c], n)).boolean("diverged", diverged).end();
+            }
+        }
+    }
+    std::fclose(in);
+}
+
 int main(int argc, char** argv) {
     const std::string mode = vh::arg(argc, argv, "--mode", "sched");
     const long seed = std::atol(vh::arg(argc, argv, "--seed", "1"));
@@ -592,8 +829,11 @@ int main(int argc, char** argv) {
             sched_rng(js, rng);
             sched_cache(js, rng);
         }
+    } else if (mode == "replay") {
+        replay_schedules(js, rng, vh::arg(argc, argv, "--sched", ""));
     } else if (mode == "stress") {
         verif::on_yield = nullptr;
+        stress_cold(js, T);   // first: nothing has been warmed up single-threaded yet
         for (long t = 0; t < budget; ++t) {
             stress_shared(js, rng, T, 20);
             stress_free(js, rng, T, 60);
